@@ -94,6 +94,7 @@ func (s *State) clone() *State {
 }
 
 type Engine struct {
+	retTag string
 	prog   *Program
 	defs   []Def
 	facts  []Fact
@@ -325,6 +326,15 @@ func (e *Engine) oblige(st *State, kind, slug string, goal T, pos token.Pos, cl 
 	}
 	slug = normalizeSlug(slug)
 	base := fmt.Sprintf("%s/%s:%s", e.fnName, kind, slug)
+	if kind == "post" && e.retTag != "" {
+		// postconditions are named by the return statement they are checked at, so that adding or removing an
+		// unrelated return does not rename the others
+		tag := e.retTag
+		if len(tag) > 48 {
+			tag = tag[:48] + "…"
+		}
+		base += " @ " + tag
+	}
 	e.slugCount[base]++
 	name := fmt.Sprintf("%s#%d", base, e.slugCount[base])
 	props := e.curProps
@@ -544,6 +554,8 @@ func (e *Engine) symbolic(st *State, prefix string, t types.Type) Value {
 			Le(off, I(1<<40)), Implies(Eq(blk, I(0)), And(Eq(ln, I(0)), Eq(cp, I(0)), Eq(off, I(0))))), "slice well-formed")
 		if isByteLike(u.Elem()) {
 			e.bytesAreBytes(st, blk)
+		} else {
+			e.assume(st, e.sliceTyped(blk, u.Elem()), "typed memory: a backing array holds elements of one type")
 		}
 		return SliceV{blk, off, ln, cp}
 	case *types.Interface:
@@ -607,6 +619,13 @@ func (e *Engine) bytesAreBytes(st *State, blk T) {
 	k := T{v, SInt}
 	c := Sel(Sel(st.Mem, blk), k)
 	e.assume(st, Forall([]string{v}, And(Le(I(0), c), Le(c, I(255)))), "typed memory: bytes of a byte block")
+}
+
+// sliceTyped: the backing array of a non-byte slice holds elements of exactly the slice's element type (Go has no
+// conversion between slices of different element types), so slices of different element types never share a block.
+func (e *Engine) sliceTyped(blk T, elem types.Type) T {
+	e.declareUF("elty", "(declare-fun elty (Int) Int)")
+	return Implies(Ne(blk, I(0)), Eq(app(SInt, "elty", blk), e.typeID(elem)))
 }
 
 // allocBlock reserves n consecutive addresses and returns the first.
@@ -1020,6 +1039,9 @@ func (e *Engine) loadAtK(st *State, addr T, t types.Type, key string) Value {
 		e.assumeQ(st, And(Ge(blk, I(0)), Lt(blk, st.alloc), Ge(off, I(0)), Ge(ln, I(0)), Le(ln, cp), Le(cp, I(1<<40)), Le(off, I(1<<40)),
 			Implies(Eq(blk, I(0)), And(Eq(ln, I(0)), Eq(cp, I(0))))), "typed memory: slice well-formed")
 		e.oldStaysOld(st, addr, false, blk)
+		if !isByteLike(u.Elem()) {
+			e.assumeQ(st, e.sliceTyped(blk, u.Elem()), "typed memory: a backing array holds elements of one type")
+		}
 		return SliceV{blk, off, ln, cp}
 	case *types.Interface:
 		h := e.heapGet(st, key)
